@@ -5,7 +5,8 @@ open Qx.Driver Qx.C15
 /-
 Op lines (space separated):
   reset ctl=<0|1> comp=<n>
-  creds
+  creds | ruser | rpass
+  rtx <tx>            (the retransmission timer of that transaction fires once)
   addr <addr> <prio>
   connect
   tick
@@ -18,6 +19,7 @@ Op lines (space separated):
         fp fpbad            a FINGERPRINT attribute with a right / wrong CRC
         u                   some other attribute (unknown comprehension-optional)
         sw                  an attribute whose length field runs past the end of the datagram (it swallows whatever follows)
+        uc  pr<N>           a USE-CANDIDATE / PRIORITY(N) attribute at this position (in front of or behind MESSAGE-INTEGRITY)
 Observation: a=… w=… r=… c=… p=… s=… k=… C=… d=… t=…
 -/
 
@@ -36,7 +38,8 @@ def parseMethod : String → Option Method
 def parseAttr : String → Option Attr
   | "loc" => some (.mi .validLocal) | "rem" => some (.mi .validRemote) | "bad" => some (.mi .wrongKey)
   | "trunc" => some (.mi .truncated) | "fp" => some (.fingerprint true) | "fpbad" => some (.fingerprint false)
-  | "u" => some .other | "sw" => some .overrun | _ => none
+  | "u" => some .other | "sw" => some .overrun | "uc" => some .useCandidate
+  | t => if t.startsWith "pr" then (t.drop 2).toString.toNat?.map Attr.priority else none
 
 /-- the attribute list in wire order -/
 def parseLayout (s : String) : Option (List Attr) :=
@@ -76,6 +79,12 @@ def stepLine (s : St) (line : String) : St × String :=
     | some c, some k => (init (c != 0) k, "ok")
     | _, _ => (s, "bad-op")
   | ["creds"] => doStep s .setRemoteCreds
+  | ["ruser"] => doStep s .setRemoteUser
+  | ["rpass"] => doStep s .setRemotePassword
+  | ["rtx", t] =>
+    match t.toNat? with
+    | some t => doStep s (.retransmit t)
+    | none => (s, "bad-op")
   | ["addr", a, p] =>
     match a.toNat?, p.toNat? with
     | some a, some p => doStep s (.addRemote a p)
